@@ -105,10 +105,11 @@ def check(cx):
                   and b["term"]["ty"] == "bool"]
             ok1 = False
             for bi, t in sw:
-                # false arm is value 0; the otherwise arm (true) must build Err(UniqueConstraintViolated)
+                # false arm is value 0; from the otherwise arm (true) the block that builds
+                # Err(UniqueConstraintViolated) must really be reachable (constant conditions threaded away)
                 tgt = t["otherwise"]
-                reg = dominated(fu, tgt)
-                errs = [s for _, s in core.region_aggregates(fu, reg) if s["rv"].get("variant") == "UniqueConstraintViolated"]
+                reach = fu.reachable_threaded(tgt)
+                errs = [s for _, s in core.region_aggregates(fu, reach) if s["rv"].get("variant") == "UniqueConstraintViolated"]
                 ok1 = ok1 or bool(errs)
             good = good and ok1
         cx.verdict(good, r3, "unique:conflict-is-error", fu.where(), "conflict arm builds UniqueConstraintViolated",
